@@ -429,6 +429,10 @@ def _private_generators(env, cfg):
         objs.append(IntervalSage(model, names, loss))
     env.claim('no_unseeded_private_generator', all(seed is not None for seed, _ in PRIVATE), detail=str(PRIVATE))
     env.claim('no_other_entropy_source_touched', ent.n == 0, detail=str(ent.used))
+    from symx import core
+    shared = getattr(core.PATH_RESET_HOOKS[0], 'functions', []) if core.PATH_RESET_HOOKS else []
+    env.claim('no_mutable_object_shared_through_default_arguments', not shared,
+              detail=f"evaluated once at import and shared by every instance in the process: {shared}")
 
 
 def _tree_seed(env, cfg):
